@@ -102,6 +102,16 @@ func (t *hparser) value() (*hnode, error) {
 		t.p++
 		l, err := t.listUntil(']')
 		return &hnode{k: 'T', list: l}, err
+	case 'X', 'A':
+		if t.p >= len(t.s) || t.s[t.p] != '[' {
+			return nil, fmt.Errorf("%c without [ at %d", c, t.p)
+		}
+		t.p++
+		l, err := t.listUntil(']')
+		if err == nil && (len(l) != 2 || (c == 'A' && l[1].k != 's')) {
+			err = fmt.Errorf("%c needs an expression and a key at %d", c, t.p)
+		}
+		return &hnode{k: c, list: l}, err
 	case 'F':
 		name, err := t.hexToDot()
 		if err != nil {
@@ -201,8 +211,52 @@ func (n *hnode) expr() string {
 			parts[i] = x.expr()
 		}
 		return n.s + "(" + strings.Join(parts, ", ") + ")"
+	case 'X':
+		return n.list[0].expr() + "[" + n.list[1].expr() + "]"
+	case 'A':
+		return n.list[0].expr() + "." + n.list[1].s
 	}
 	return "null"
+}
+
+// enc: the node in the encoding parseHX reads
+func (n *hnode) enc() string {
+	switch n.k {
+	case 'n':
+		return "n"
+	case 's':
+		return encStr(n.s)
+	case 'i':
+		return encInt(n.i)
+	case 'b':
+		return encBool(n.b)
+	case 'L':
+		return encLocal(n.s)
+	case 'l', 'T', 'X', 'A', 'F':
+		var b strings.Builder
+		switch n.k {
+		case 'l':
+			b.WriteString("[")
+		case 'F':
+			b.WriteString("F" + hex.EncodeToString([]byte(n.s)) + ".[")
+		default:
+			b.WriteString(string(n.k) + "[")
+		}
+		for _, x := range n.list {
+			b.WriteString(x.enc())
+		}
+		b.WriteString("]")
+		return b.String()
+	case 'm':
+		var b strings.Builder
+		b.WriteString("{")
+		for i, x := range n.list {
+			b.WriteString("k" + hex.EncodeToString([]byte(n.keys[i])) + "." + x.enc())
+		}
+		b.WriteString("}")
+		return b.String()
+	}
+	return "n"
 }
 
 func (n *hnode) get(k string) *hnode {
